@@ -196,7 +196,10 @@ class TapeProp(object):
             elif kind == "tool_add_files":
                 files = [materialise(fd) for fd in op["files"]]
                 cont = container()
-                _, err = w.call(cont.add_files, [to_coco(f) for f in files])
+                cocos = [to_coco(f) for f in files]
+                if len(files) % 3 == 1:
+                    cocos = iter(cocos)          # callers also hand over generators / filter objects
+                _, err = w.call(cont.add_files, cocos)
                 if err is not None:
                     res.violate("ADD-ERROR:" + type(err).__name__, "add_files raised %s" % err, k)
                     break
